@@ -72,7 +72,6 @@ func c13bytes(l *vw.L, b []byte) {
 // ------------------------------------------------------------------------------------------------
 // the in-process cluster
 
-const c13numTS = 24
 
 type c13encReq struct {
 	addr     string
@@ -84,6 +83,7 @@ type c13encReq struct {
 }
 
 type c13env struct {
+	numTS  int // tractservers registered with this curator (few servers => piece placements of different stripes collide)
 	c      *Curator
 	stores map[string]*tractserver.Store
 	ids    map[string]core.TractserverID
@@ -422,8 +422,9 @@ func (d c13disk) Read(ctx context.Context, f interface{}, b []byte, off int64) (
 	return d.MemDisk.Read(ctx, f, b, off)
 }
 
-func c13newEnv() *c13env {
+func c13newEnv(numTS int) *c13env {
 	e := &c13env{
+		numTS:   numTS,
 		stores:  map[string]*tractserver.Store{},
 		ids:     map[string]core.TractserverID{},
 		addrOf:  map[core.TractserverID]string{},
@@ -435,7 +436,7 @@ func c13newEnv() *c13env {
 	mc := newTestMasterConnection()
 	e.c = newTestCurator(mc, c13curTT{e}, DefaultTestConfig)
 	<-mc.heartbeatChan
-	for i := 1; i <= c13numTS; i++ {
+	for i := 1; i <= e.numTS; i++ {
 		cfg := tractserver.DefaultTestConfig
 		s := tractserver.NewStore(c13tsTT{e}, tractserver.NewMetadataStore(), &cfg)
 		s.AddDisk(c13newDisk())
@@ -450,7 +451,7 @@ func c13newEnv() *c13env {
 }
 
 func (e *c13env) heartbeat() {
-	for i := 1; i <= c13numTS; i++ {
+	for i := 1; i <= e.numTS; i++ {
 		e.c.addTS(core.TractserverID(i), c13addr(i))
 	}
 }
@@ -858,8 +859,36 @@ func c13lenForUnits(r *vw.Rng, u int) int {
 	return r.Range(lo, hi)
 }
 
+// c13tpc is the curator's own tpContext with AllocateRSChunkIDs recorded (what packChunks was given for the round).
+type c13tpc struct {
+	*curatorTPContext
+	mu     sync.Mutex
+	allocs [][2]uint64 // (base id, count)
+	part   core.PartitionID
+}
+
+func (c *c13tpc) AllocateRSChunkIDs(n int) (core.RSChunkID, core.Error) {
+	id, err := c.curatorTPContext.AllocateRSChunkIDs(n)
+	if err == core.NoError {
+		c.mu.Lock()
+		c.allocs = append(c.allocs, [2]uint64{id.ID, uint64(n)})
+		c.part = id.Partition
+		c.mu.Unlock()
+	}
+	return id, err
+}
+
+// every piece id (chunk id + index) ever used by a committed stripe, across all cases and curators of the run
+var c13pieceOwner = map[string]string{}
+
 func c13stripe(tr *vw.Trace, e *c13env, r *vw.Rng, id string, big bool) {
-	classes := c13classes() // sorted: AllRS itself is in map-iteration order
+	var classes [][2]int // sorted: AllRS itself is in map-iteration order
+	for _, c := range c13classes() {
+		if c[0]+c[1] <= e.numTS {
+			classes = append(classes, c)
+		}
+	}
+	few := e.numTS < 20
 	nm := classes[0]
 	switch r.Intn(10) {
 	case 0, 1, 2, 3, 4:
@@ -867,6 +896,9 @@ func c13stripe(tr *vw.Trace, e *c13env, r *vw.Rng, id string, big bool) {
 		nm = classes[1%len(classes)]
 	default:
 		nm = classes[r.Intn(len(classes))]
+	}
+	if few && r.Chance(1, 2) {
+		nm = classes[len(classes)-1] // the widest class that fits: exactly n+m servers or one or two more
 	}
 	var cls storageclass.Class
 	for _, c := range storageclass.AllRS {
@@ -879,6 +911,9 @@ func c13stripe(tr *vw.Trace, e *c13env, r *vw.Rng, id string, big bool) {
 	k := r.PickInt(1, 2, 2, 3, 3, 4)
 	if big {
 		k = 10
+	}
+	if few {
+		k = r.PickInt(1, 1, 2)
 	}
 	extra := r.PickInt(0, 0, 0, 1, 100, 4000)
 	target := k*P + extra
@@ -895,6 +930,11 @@ func c13stripe(tr *vw.Trace, e *c13env, r *vw.Rng, id string, big bool) {
 	nchunks := n
 	if n+m <= 9 && k <= 2 && r.Chance(1, 3) {
 		nchunks = 2 * n
+	}
+	if few {
+		// one packing round with SEVERAL stripes of the class on few servers: the pieces of different stripes land on
+		// the same tractservers, so everything that must keep stripes apart (piece ids, layouts, hosts) is exercised
+		nchunks = n * r.PickInt(2, 2, 3, 3, 4)
 	}
 	if r.Chance(1, 4) {
 		nchunks += r.Range(1, 2) // more full chunks than one stripe needs: they stay replicated
@@ -1016,7 +1056,8 @@ func c13stripe(tr *vw.Trace, e *c13env, r *vw.Rng, id string, big bool) {
 
 	// ---- the real tract packer
 	term := e.c.stateHandler.GetTerm()
-	tp := makeTractPacker(&curatorTPContext{c: e.c, term: term}, e.c.internalOpM, cls.ID(), n, m, target)
+	tpc := &c13tpc{curatorTPContext: &curatorTPContext{c: e.c, term: term}}
+	tp := makeTractPacker(tpc, e.c.internalOpM, cls.ID(), n, m, target)
 	for _, t := range tracts {
 		tp.addTract(t.tid, t.from, t.ver)
 	}
@@ -1153,6 +1194,40 @@ func c13stripe(tr *vw.Trace, e *c13env, r *vw.Rng, id string, big bool) {
 		tr.Op(op...)
 		tr.Obs(1)
 	}
+	// ---- piece ids of the round: what packChunks derived from the one AllocateRSChunkIDs result
+	if nstripes > 0 && len(tpc.allocs) == 1 {
+		tr.Op(16, int64(tpc.allocs[0][0]), int64(n), int64(m), int64(nstripes))
+		var obs vw.L
+		for _, si := range stripes {
+			for j := 0; j < n+m; j++ {
+				obs.Add(int64(si.base.Add(j).ID))
+			}
+		}
+		tr.Obs(obs...)
+		if tpc.allocs[0][1] != uint64(nstripes*(n+m)) {
+			vw.Report(vw.Violation{Property: c13prop, Signature: "piece-ids/wrong-number-allocated",
+				What: "packChunks did not allocate (n+m) ids per stripe", Case: id})
+		}
+	}
+	// MONITOR (model-free): piece ids (chunk id + index) are pairwise distinct across all stripes ever committed
+	for sIdx, si := range stripes {
+		if si.hosts == nil {
+			continue
+		}
+		for j := 0; j < n+m; j++ {
+			pid := si.base.Add(j)
+			key := fmt.Sprintf("%p/%d/%d", e, pid.Partition, pid.ID)
+			me := fmt.Sprintf("%s stripe %d piece %d", id, sIdx, j)
+			if prev, dup := c13pieceOwner[key]; dup {
+				vw.Report(vw.Violation{Property: c13prop, Signature: "piece-ids/not-distinct-across-stripes",
+					What: "two pieces of committed stripes have the same piece id (chunk id + index): a tractserver holding both keeps only one of them", Case: id,
+					Detail: map[string]interface{}{"id": pid.ID, "first": prev, "second": me, "n": n, "m": m}})
+			} else {
+				c13pieceOwner[key] = me
+			}
+		}
+	}
+	vw.Stat(fmt.Sprintf("stripe/servers=%s", map[bool]string{true: "few", false: "many"}[few]), 1)
 	stripeOfBase := func(b core.RSChunkID) int {
 		for s, si := range stripes {
 			if si.base == b {
@@ -1260,6 +1335,29 @@ func c13stripe(tr *vw.Trace, e *c13env, r *vw.Rng, id string, big bool) {
 		}
 		windows(s, si, vw.Scale(5, 12))
 	}
+
+	// MONITOR (model-free): EVERY tract of the case reads back through the client (RS pointer if it was moved) as the
+	// bytes that were written, over its whole length
+	for _, t := range tracts {
+		if t.length == 0 {
+			continue
+		}
+		want := c13fill(t.a, t.b, t.length)
+		for off := 0; off < t.length; off += 1 << 20 {
+			l := t.length - off
+			if l > 1<<20 {
+				l = 1 << 20
+			}
+			n2, _, data2 := e.read(blobs[t.blob].id, int64(t.pos)*int64(core.TractLength)+int64(off), l)
+			if n2 != l || !bytes.Equal(data2, want[off:off+l]) {
+				vw.Report(vw.Violation{Property: c13prop, Signature: "rs-read/whole-tract-differs-from-written",
+					What: "a tract read back through its current location is not the bytes that were written", Case: id,
+					Detail: map[string]interface{}{"tract_len": t.length, "off": off, "got": n2, "n": n, "m": m, "stripes": nstripes}})
+				break
+			}
+		}
+	}
+	vw.Stat("read/whole-tract", int64(len(tracts)))
 
 	// ---- reads through the RS pointers
 	emitRead := func(p *c13probe, blank, fail []core.TractserverID, tag string) (int, int64) {
@@ -1415,6 +1513,13 @@ func c13stripe(tr *vw.Trace, e *c13env, r *vw.Rng, id string, big bool) {
 			if nb > n+m {
 				nb = n + m
 			}
+			if free := e.numTS - (n + m); nb <= m && nb > free {
+				// not enough spare tractservers to host nb rebuilt pieces
+				nb = free
+				if nb == 0 {
+					nb = m + 1 // only the refusal can be exercised
+				}
+			}
 			badPieces := r.Perm(n + m)[:nb]
 			sort.Ints(badPieces)
 			var badIds []core.TractserverID
@@ -1529,10 +1634,13 @@ func c13stripe(tr *vw.Trace, e *c13env, r *vw.Rng, id string, big bool) {
 			for _, h := range si.hosts {
 				inUse[h] = true
 			}
-			for i := 1; i <= c13numTS; i++ {
+			for i := 1; i <= e.numTS; i++ {
 				if !inUse[core.TractserverID(i)] {
 					scratch = append(scratch, c13addr(i))
 				}
+			}
+			if len(scratch) < m {
+				break // too few spare tractservers for m scratch destinations
 			}
 			srcs := make([]core.TSAddr, n)
 			for i, j := range srcIdx {
@@ -1702,7 +1810,15 @@ func TestVerifC13(t *testing.T) {
 	rng := vw.NewRng(vw.Seed())
 	var caseNo uint64
 	c13codec(tr, rng, &caseNo)
-	e := c13newEnv()
+	// three clusters: many spare tractservers (one stripe per round mostly), and two with FEW servers -- exactly n+m for
+	// RS(6,3), and 12 (three spare for 6+3, one for 8+3) -- where every round packs several stripes
+	envs := map[int]*c13env{}
+	env := func(n int) *c13env {
+		if envs[n] == nil {
+			envs[n] = c13newEnv(n)
+		}
+		return envs[n]
+	}
 	ncases := vw.Scale(14, 120)
 	for i := 0; i < ncases; i++ {
 		caseNo++
@@ -1711,7 +1827,15 @@ func TestVerifC13(t *testing.T) {
 			continue
 		}
 		big := vw.Thorough() && i%20 == 7
-		c13stripe(tr, e, rng.Fork(caseNo), id, big)
+		size := 24
+		switch {
+		case big:
+		case i%7 == 2 || i%7 == 5:
+			size = 9
+		case i%7 == 3 || i%7 == 6:
+			size = 12
+		}
+		c13stripe(tr, env(size), rng.Fork(caseNo), id, big)
 	}
 	tr.Close()
 	vw.Finish("C13")
